@@ -92,6 +92,19 @@ fn run(args: Vec<String>) -> i32 {
         let _ = take_resource_panic();
         let o = match guarded(|| w.run(idx)) {
             Ok(o) => o,
+            Err(p) if suiron::query_stopped() && p.in_engine() => {
+                // The panic was raised while the stop flag was set: a timer fired (a second really passed,
+                // i.e. the machine stalled or the search exceeds the limit) and the search went on with
+                // every new goal failing, which takes it down paths no complete search takes - e.g.
+                // into arithmetic on an unbound variable. Not an observation about the property.
+                let d = w.describe(idx);
+                let mut o = Outcome::new(idx);
+                o.sample = d;
+                o.evals = 0;
+                o.verdict = Verdict::Inconclusive(format!("panic while the stop flag was set (timed-out search): {}", p.msg));
+                { let t = suiron::start_query_timer(60_000); suiron::cancel_timer(t); }
+                o
+            }
             Err(p) => {
                 if !p.in_engine() || p.loc.is_empty() { eprintln!("harness panic at case {}: {} at {}", idx, p.msg, p.loc); return 3; }
                 let d = w.describe(idx);
